@@ -98,6 +98,10 @@ def vc_tape_operators(H):
                 other = Tape(cls, alg, 'OTHER', sym('other.keys')) if other_kind == 'tape' else 7
                 interp = Interp(ctx, source_name=TR)
                 r = H.closure(interp, fuc)(me, other, **kw)
+                if len(looked) != 1:
+                    # composed from several operators (or none): equality with the single table operator is not decidable from the
+                    # recorded look-ups -> undecided, the register stand-in compares values
+                    raise OutOfSubset(f'TapeRecorder.{meth}: {len(looked)} operator look-ups instead of one (contract does not apply)')
                 ok = len(looked) == 1 and looked[0][0] == op
                 ctx.oblige(f'C11 sim: TapeRecorder.{meth} uses algebra.{op} (as MultiVector.{meth})', bool(ok),
                            meta={'looked_up': repr(looked)})
@@ -140,6 +144,8 @@ def vc_tape_operators(H):
             cls = TapeCls()
             me = Tape(cls, alg, 'SELF', sym('self.keys'))
             r = H.closure(Interp(ctx, source_name=TR), fuc)(me, **kw)
+            if len(looked) != 1:
+                raise OutOfSubset(f'TapeRecorder.{meth}: {len(looked)} operator look-ups instead of one (contract does not apply)')
             ok = len(looked) == 1 and looked[0][0] == op and same(looked[0][1], me._keys) and isinstance(r, Tape)
             ctx.oblige(f'C11 sim: TapeRecorder.{meth} uses algebra.{op}[self.keys()]', bool(ok), meta={'looked_up': repr(looked)})
             if ok:
